@@ -96,6 +96,14 @@ class MAlias:
         self.attr = attr
 
 
+class MSubAlias:
+    """x = outer.setdefault(key, {}): x aliases the inner dict stored in `outer` under `key`"""
+    def __init__(self, outer_expr, key, inner_t):
+        self.outer_expr = outer_expr
+        self.key = key
+        self.inner_t = inner_t
+
+
 class MExc:
     """exception instance"""
     def __init__(self, cls, args=(), origin=None):
